@@ -191,6 +191,7 @@ func c14(tier string) []*explore.Scenario {
 	}
 	out = append(out, c14History(n))
 	out = append(out, apiSeqs("C14", tier)...)
+	out = append(out, handlerSeqs("C14", tier)...)
 	return out
 }
 
